@@ -222,7 +222,10 @@ class WebSocketApp:
             return
         while not self.stop_ping.wait(self.ping_interval) and self.keep_running is True:
             if self.sock:
-                self.last_ping_tm = time.time()
+                if self.last_pong_tm >= self.last_ping_tm:
+                    # restart the timeout clock only when the previous ping was answered:
+                    # last_ping_tm is the time of the oldest ping still waiting for its pong
+                    self.last_ping_tm = time.time()
                 try:
                     _logging.debug("Sending ping")
                     self.sock.ping(self.ping_payload)
